@@ -30,13 +30,25 @@ def fn_sig(F_types, b):
 
 
 def index_of(d):
-    """{path: {"sig": [...], "parent": str}} for crate-local fns with MIR"""
+    """{path: {"sig": [...], "parent": str, "callers": [...]}} for crate-local fns with MIR"""
     out = {}
     types = d["types"]
     for b in d["bodies"]:
         if "mir" not in b or b.get("kind") not in ("Fn", "AssocFn"):
             continue
-        out[b["path"]] = {"sig": fn_sig(types, b), "parent": b["path"].rsplit("::", 1)[0]}
+        out[b["path"]] = {"sig": fn_sig(types, b), "parent": b["path"].rsplit("::", 1)[0], "callers": []}
+    for b in d["bodies"]:
+        if "mir" not in b:
+            continue
+        who = b["path"] if b.get("kind") in ("Fn", "AssocFn") else b.get("parent")
+        for blk in b["mir"]["blocks"]:
+            t = blk["term"]
+            if t["k"] == "call":
+                r = t["callee"].get("resolved") or t["callee"].get("def")
+                if r in out and who and who not in out[r]["callers"]:
+                    out[r]["callers"].append(who)
+    for v in out.values():
+        v["callers"].sort()
     return out
 
 
@@ -64,8 +76,9 @@ def detect_adt_renames(cur, base):
             if k.rsplit("::", 1)[0] != n.rsplit("::", 1)[0]:
                 continue
             kn = k.rsplit("::", 1)[1]
-            a = json.dumps(cur[n]).replace(nn, "\x00")
-            b = json.dumps(base[k]).replace(kn, "\x00")
+            # same field types in the same order (field names may have been renamed in the same commit)
+            a = json.dumps([[t for _, t in v] for v in cur[n]]).replace(nn, "\x00")
+            b = json.dumps([[t for _, t in v] for v in base[k]]).replace(kn, "\x00")
             if a == b:
                 c.append(k)
         if len(c) == 1 and c[0] not in ren.values():
@@ -144,15 +157,33 @@ def detect_renames(cur, base):
     missing = [p for p in base if p not in cur]
     ren = {}
     taken = set()
+    def stable_callers(idx, p, other):
+        # callers that exist under the same name in both trees
+        return {c for c in idx[p].get("callers", []) if c in other}
+
     for n in sorted(new):
         c = [k for k in missing if base[k]["parent"] == cur[n]["parent"] and base[k]["sig"] == cur[n]["sig"] and k not in taken]
-        if len(c) == 1:
-            # the old name must be claimed by exactly one new function
-            rivals = [n2 for n2 in new if n2 != n and cur[n2]["parent"] == cur[n]["parent"] and cur[n2]["sig"] == cur[n]["sig"]]
-            if not rivals:
-                ren[n] = c[0]
-                taken.add(c[0])
+        rivals = [n2 for n2 in new if n2 != n and cur[n2]["parent"] == cur[n]["parent"] and cur[n2]["sig"] == cur[n]["sig"]]
+        if len(c) > 1 or rivals:
+            # several functions of one signature were renamed together: tell them apart by who calls them
+            mine = stable_callers(cur, n, base)
+            c = [k for k in c if mine and stable_callers(base, k, cur) == mine]
+            rivals = [n2 for n2 in rivals if stable_callers(cur, n2, base) == mine]
+        if len(c) == 1 and not rivals:
+            ren[n] = c[0]
+            taken.add(c[0])
     return ren
+
+
+def apply_type_renames_text(txt, crate, ren):
+    """rename crate-local types everywhere they are spelled, with or without the crate prefix (type strings)"""
+    import re
+    for n, k in ren.items():
+        n2 = n[len(crate) + 2:] if n.startswith(crate + "::") else n
+        k2 = k[len(crate) + 2:] if k.startswith(crate + "::") else k
+        txt = re.sub(r"(?<!\w)" + re.escape(n2) + r"(?!\w)", k2.replace("\\", "\\\\"), txt)
+        txt = txt.replace('"name": %s' % json.dumps(n.rsplit("::", 1)[1]), '"name": %s' % json.dumps(k.rsplit("::", 1)[1]))
+    return txt
 
 
 def apply_renames_text(txt, ren):
